@@ -19,6 +19,7 @@ Times are integers (the harness draws onsets and delays on a 1/8 s grid and scal
 non-numeric onset (NaN after `pd.to_numeric(errors='coerce')`).
 -/
 import HedVerif.Model.Temporal
+import HedVerif.Model.Tok
 namespace HedVerif.Tabular
 open HedVerif.Temporal (Marker)
 
@@ -95,11 +96,21 @@ structure Cfg where
   maskByRow : Bool
   /-- proposed fix C07_delay_guard: a Delay group without usable value or numeric onset stays in its row -/
   guardDelay : Bool
+  /-- for an integer column label of `dataframe_a` its value (`columns` then holds its `str()`); `none` / absent for
+  a string label -/
+  colIdx : List (Option Nat) := []
   kKey : RIssue
   kRef : RIssue
   kUnordered : RIssue
   kTemporal : Temporal.Err → RIssue
   o : Oracle
+
+/-- a pandas column label as `ec_column` carries it: a string (file with a header line) or an integer
+(`has_column_names=False`: the columns are addressed by position).  `0`, `"0"` and `""` are three different labels. -/
+inductive ColLabel where
+  | name (s : Str)
+  | idx (n : Nat)
+deriving Repr, DecidableEq, Inhabited
 
 /-- where an issue was produced (`p` = position in the processed frame, `k` = original row) -/
 inductive Src where
@@ -124,7 +135,7 @@ structure Issue where
 deriving Repr, DecidableEq, Inhabited
 
 def mk (e : RIssue) (row : Option Nat) (col : Option Str) (text : Str) (src : Src) : Issue :=
-  ⟨e.kind, e.sev, row, col, text, src⟩
+  { kind := e.kind, sev := e.sev, row := row, col := col, text := text, src := src }
 
 def na : Str := ['n', '/', 'a']
 
@@ -159,6 +170,41 @@ def startOf : List Str → Nat → Nat
 def remapSpan (cells : List Str) (i : Nat) (span : Nat × Nat) : Nat × Nat :=
   (span.1 + startOf cells i, span.2 + startOf cells i)
 
+/-! ### the tree of `HedString.from_hed_strings`: the cells' trees side by side, spans remapped -/
+
+mutual
+/-- a node of cell `i` seen from the joined string (`_get_org_span_from_strings`) -/
+def shiftNode (o : Nat) : Node → Node
+  | .tag a b => .tag (a + o) (b + o)
+  | .group a b kids => .group (a + o) (b + o) (shiftList o kids)
+def shiftList (o : Nat) : List Node → List Node
+  | [] => []
+  | n :: ns => shiftNode o n :: shiftList o ns
+end
+
+mutual
+/-- a tree as a flat code (for comparing trees; `Node` is a nested inductive) -/
+def nodeCode : Node → List Nat
+  | .tag a b => [0, a, b]
+  | .group a b kids => [1, a, b] ++ listCode kids ++ [2]
+def listCode : List Node → List Nat
+  | [] => []
+  | n :: ns => nodeCode n ++ listCode ns
+end
+
+def concatFrom (all : List Str) : Nat → List Str → List Node
+  | _, [] => []
+  | i, c :: cs => shiftList (startOf all i) (Tree.construct c) ++ concatFrom all (i + 1) cs
+
+/-- `contents = [child for sub_string in hed_strings for child in sub_string.children]`: each cell parsed on its own
+(a cell with unbalanced parentheses has no children) -/
+def concatTrees (cells : List Str) : List Node := concatFrom cells 0 cells
+
+/-- the tree of the joined text parsed as one string -/
+def joinedTree (cells : List Str) : List Node := Tree.construct (joinWith [','] cells)
+
+def sameTree (cells : List Str) : Bool := listCode (concatTrees cells) == listCode (joinedTree cells)
+
 /-! ### `_run_checks`, one row -/
 
 structure RowRes where
@@ -172,8 +218,23 @@ def lastCellIssues (cfg : Cfg) (r : Row) : List RIssue :=
   | none => []
   | some c => cfg.o.cell c.2.2
 
+/-- the label object `columns[column_number]` pushed as COLUMN context -/
+def labelOf (cfg : Cfg) (c : Nat) (name : Str) : ColLabel :=
+  match (cfg.colIdx[c]?).join with
+  | some n => .idx n
+  | none => .name name
+
+/-- `ec_column` with its type: `col` is the `str()` of the label (the key `sort_issues` compares); for a cell issue
+the label object is that of column number `c` -/
+def Issue.label (cfg : Cfg) (i : Issue) : Option ColLabel :=
+  match i.src, i.col with
+  | .cell _ c, some name => some (labelOf cfg c name)
+  | _, some name => some (.name name)
+  | _, none => none
+
 def cellIssues (cfg : Cfg) (p : Nat) (r : Row) : List Issue :=
-  (live cfg r).flatMap fun c => (cfg.o.cell c.2.2).map fun e => mk e (some p) (some c.2.1) c.2.2 (.cell p c.1)
+  (live cfg r).flatMap fun c => (cfg.o.cell c.2.2).map fun e =>
+    mk e (some p) (some c.2.1) c.2.2 (.cell p c.1)
 
 /-- does the row reach `onset_mask.iloc[row_number]` -/
 def reaches (cfg : Cfg) (r : Row) : Bool := !anyError (lastCellIssues cfg r) && !(live cfg r).isEmpty
